@@ -102,20 +102,24 @@ Definition model_agrees (c : ocase) : bool :=
     storage and lock counts are what the real code did). *)
 Definition cfg_of (c : ocase) (t : nat) : option tcfg := nth_error (oc_cfgs c) t.
 
-(** S1 (issue_spans_disjoint): never two requests inside Issuer.Issue for one identifier *)
-Fixpoint spans_ok (inspan : list (nat * nat)) (steps : list ostep) : bool :=
-  match steps with
+(** S1 (issue_spans_disjoint): never two requests inside Issuer.Issue for one identifier.
+    Defined on events so that the same function is applied to the implementation's trace (here)
+    and to the model's traces (theorem [model_spans_ok] in Issuance/SpecLink.v). *)
+Fixpoint spans_ok_ev (inspan : list (nat * nat)) (es : list ev) : bool :=
+  match es with
   | [] => true
-  | o :: r =>
-      match o_op o with
+  | e :: r =>
+      match e_op e with
       | OIssS i =>
-          if Nat.eqb (o_out o) 0
-          then negb (existsb (fun p => Nat.eqb (snd p) i) inspan) && spans_ok ((o_tid o, i) :: inspan) r
-          else spans_ok inspan r
-      | OIssE _ => spans_ok (filter (fun p => negb (Nat.eqb (fst p) (o_tid o))) inspan) r
-      | _ => spans_ok inspan r
+          if Nat.eqb (e_out e) 0
+          then negb (existsb (fun p => Nat.eqb (snd p) i) inspan) && spans_ok_ev ((e_tid e, i) :: inspan) r
+          else spans_ok_ev inspan r
+      | OIssE _ => spans_ok_ev (filter (fun p => negb (Nat.eqb (fst p) (e_tid e))) inspan) r
+      | _ => spans_ok_ev inspan r
       end
   end.
+Definition ev_of (o : ostep) : ev := Ev (o_tid o) (o_op o) (o_out o).
+Definition spans_ok (inspan : list (nat * nat)) (steps : list ostep) : bool := spans_ok_ev inspan (map ev_of steps).
 
 (** the request had one of its existence checks falsified (injected error, or its context was
     cancelled) before *)
